@@ -109,6 +109,19 @@ fn finish_history(a: &DistinguishedName, key: &LiveKey, case: &str, out: &mut Ou
 			push_logged(&mut e2, "e", &x, case, out);
 		}
 		eq_logged(a, &e2, "a", "e", case, out);
+		// f: same types, kinds and order, one value differs in letter case only (names are compared exactly)
+		if let Some(pos) = entries.iter().position(|e| crate::der::unhex(&sval(e, "val")).iter().any(|b| b.is_ascii_alphabetic())) {
+			let mut f = DistinguishedName::new();
+			for (i, e) in entries.iter().enumerate() {
+				let mut x = e.clone();
+				if i == pos {
+					let flipped: Vec<u8> = crate::der::unhex(&sval(e, "val")).iter().map(|b| if b.is_ascii_lowercase() { b.to_ascii_uppercase() } else { b.to_ascii_lowercase() }).collect();
+					x["val"] = json!(hex(&flipped));
+				}
+				push_logged(&mut f, "f", &x, case, out);
+			}
+			eq_logged(a, &f, "a", "f", case, out);
+		}
 	}
 	// encoded subject of a certificate issued with this name
 	let mut p = CertificateParams::default();
